@@ -1,7 +1,9 @@
 """C09 — Aggregation returns one row per group, and one row without grouping (executor-model part + oracle)."""
 from ..suites_ops import K2Build
+from .. import suites_sql
 from .. import oracles, pipes
 from .refsem import suite
+from ..propkit import with_oracle
 
 PROPERTY = "C09"
 LEAN_MODULES = ["DAVerif.Props.C09", "DAVerif.Props.C01core", "DAVerif.Props.C04merge"]
@@ -32,7 +34,9 @@ RULE = ("random type-directed pipelines biased to projects and windowed extends 
         "(null_keys 0.7), empty input tables (0.2) and dead projects (0.6: every aggregate overwritten or dropped "
         "later); executed on Pandas and on the model (k4_sem), judged by oracle_C09 on all four backends (row counts "
         "vs an independent distinct-key count, group values, project-in-context) and by oracle_C27's per-row window "
-        "values; non-trivial = at least one result row")
+        "values; non-trivial = at least one result row; plus k5_twins_c09: project-heavy pipelines P(tables) concat "
+        "P(twin tables) as PostgreSQL text under WITH + CTE elimination (the configuration in which a cached aggregation "
+        "can be reused), corresponded with the model's semToSql and judged on the whole result's row count vs Pandas")
 
 CANDS = {"N6-polars-nunique-counts-null": "C09-polars-nunique-counts-null"}
 
@@ -78,6 +82,39 @@ class _K2(K2Build):
         return [{"tables": t, "pipe": {"table": "d", "steps": st}, "meta": {"fault": None}} for st in chains]
 
 
-SUITES = [_K2(), suite(PROPERTY, oracle_C09_full, CANDS, n_quick=120, n_thorough=500,
+class K5TwinsC09(suites_sql.K5Twins):
+    """project-heavy pipelines P(tables) concat P(twin tables) on the PostgreSQL dialect under WITH + CTE elimination: the two
+    branches are step for step the same calls on different inputs, so a CTE-elimination key that cannot tell two project
+    steps apart returns one branch's groups twice (seed C09-m4).  Correspondence of the real result with the model's
+    `semToSql`, whose row counts are the subject of C09_sql_row_count."""
+    n_quick, n_thorough = 40, 300
+    gen_opts = dict(suites_sql.K5Twins.gen_opts, null_keys=0.5, step_weights={"project": 3.0})
+
+
+def oracle_c09_twins(case, **opts):
+    """the whole pipeline's row count as PostgreSQL-dialect text under WITH + CTE elimination (stand-in engine) vs the count
+    on which the Pandas executor and the same dialect's text WITHOUT CTE elimination agree (the per-group count of
+    C09_project_groups): a concrete failing input for a CTE-elimination key that merges two aggregations over different
+    inputs.  Where Pandas and the plain SQL text already differ (null join keys etc.: findings of C01/C16) nothing is
+    judged here - the reference count is not established."""
+    ops, err = pipes.build_or_error(case)
+    if ops is None:
+        return []
+    ref = pipes.run_pandas(ops, case["tables"])
+    plain = pipes.run_pg_on_sqlite(ops, case["tables"], options={"use_with": False, "use_cte_elim": False, "annotate": False})
+    got = pipes.run_pg_on_sqlite(ops, case["tables"], options={"use_with": True, "use_cte_elim": True, "annotate": False})
+    if "ok" not in ref or "ok" not in got or "ok" not in plain:
+        return []
+    if len(ref["ok"]["rows"]) != len(plain["ok"]["rows"]):
+        return []
+    if len(ref["ok"]["rows"]) != len(got["ok"]["rows"]):
+        return [oracles.fail("C09:pg-cte-elim-row-count",
+                             f"PostgreSQL text (use_with, use_cte_elim) returns {len(got['ok']['rows'])} rows; Pandas and the "
+                             f"same text without CTE elimination return {len(ref['ok']['rows'])} (one per group of each "
+                             f"aggregation's own input)")]
+    return []
+
+
+SUITES = [_K2(), with_oracle(K5TwinsC09, oracle_c09_twins, name="k5_twins_c09"), suite(PROPERTY, oracle_C09_full, CANDS, n_quick=120, n_thorough=500,
                 max_rows=10, null_keys=0.7, empty_tables=0.2, dead_project=0.6, window=2.0,
                 step_weights={"project": 3.0})]
